@@ -210,7 +210,10 @@ def r12_opaque(body, begin, end, replace, log, name='', include_end=True, nth=No
     return body[:i] + replace + body[j:]
 
 
-def subst(body, frm, to, log, rule='subst', count=1, regex=False):
+def subst(body, frm, to, log, rule='subst', count=1, regex=False, optional=False):
+    if optional and ((regex and not re.search(frm, body)) or (not regex and frm not in body)):
+        log.append(f"{rule} `{frm}` not present (optional rewrite skipped)")
+        return body
     if regex:
         found = len(re.findall(frm, body))
         if (count != '*' and found != int(count)) or found == 0:
@@ -669,7 +672,7 @@ def extract_fn(repo, fnspec):
             body = r12_opaque(body, d['begin'], d['end'], d['replace'], log, d.get('name', ''),
                               include_end=d.get('include_end', 'true') != 'false', nth=d.get('nth'))
         elif k == 'subst':
-            body = subst(body, d['from'], d['to'], log, d.get('rule', 'subst'), d.get('count', 1), regex=bool(d.get('regex')))
+            body = subst(body, d['from'], d['to'], log, d.get('rule', 'subst'), d.get('count', 1), regex=bool(d.get('regex')), optional=bool(d.get('optional')))
         elif k == 'insert':
             anchor = d.get('after') or d.get('before')
             n = body.count(anchor)
@@ -784,21 +787,36 @@ def extract_stmts(repo, fnspec):
     stmts = []
     lines = []
     for a in fnspec['anchors']:
+        a, akv = a if isinstance(a, tuple) else (a, {})
         n = body.count(a)
-        if n != 1:
-            raise ExtractError(f"statement anchor lost: {a!r} matched {n}x in fn {fnspec['src_fn']}")
-        i = body.index(a)
-        depth = 0
-        j = i
-        while j < len(mb):
-            c = mb[j]
-            if c in '([{':
-                depth += 1
-            elif c in ')]}':
-                depth -= 1
-            elif c == ';' and depth == 0:
-                break
-            j += 1
+        nth = int(akv.get('nth', 0))
+        if (not nth and n != 1) or (nth and (n < nth or n != int(akv.get('of', n)))):
+            raise ExtractError(f"statement anchor lost: {a!r} matched {n}x in fn {fnspec['src_fn']}" + (f" (occurrence {nth} of {akv.get('of', n)} wanted)" if nth else ''))
+        i = -1
+        for _ in range(nth or 1):
+            i = body.index(a, i + 1)
+        if re.match(r'(if|for|while|match|loop)\b', a):
+            # block statement: ends with the block (and its else-chain), not with a `;`
+            j = i
+            while True:
+                o = mb.index('{', j)
+                j = match_close(mb, o)
+                m2 = re.match(r'\s*else\b', mb[j + 1:])
+                if not m2:
+                    break
+                j = j + 1 + m2.end()
+        else:
+            depth = 0
+            j = i
+            while j < len(mb):
+                c = mb[j]
+                if c in '([{':
+                    depth += 1
+                elif c in ')]}':
+                    depth -= 1
+                elif c == ';' and depth == 0:
+                    break
+                j += 1
         st = body[i:j + 1]
         stmts.append(st)
         lines.append(loc['line'] + src[loc['sig_start']:loc['body_open']].count('\n') + body.count('\n', 0, i))
@@ -806,7 +824,7 @@ def extract_stmts(repo, fnspec):
     text_body = '{\n' + '\n'.join('    ' + s_ for s_ in stmts) + ('\n    ' + fnspec['ret'] if fnspec.get('ret') else '') + '\n}'
     for d in fnspec.get('directives', []):
         if d['kind'] == 'subst':
-            text_body = subst(text_body, d['from'], d['to'], log, d.get('rule', 'subst'), d.get('count', 1), regex=bool(d.get('regex')))
+            text_body = subst(text_body, d['from'], d['to'], log, d.get('rule', 'subst'), d.get('count', 1), regex=bool(d.get('regex')), optional=bool(d.get('optional')))
     parts = [fnspec['wrapper_sig']]
     for kind in ('requires', 'ensures'):
         cl = fnspec.get(kind, [])
